@@ -144,6 +144,9 @@ def run(ctx):
         for s in core.special(ver, rng, ctx.n(800, 15000)):
             pfx, fields = obs.parse_fields(ver, s)
             cases.append((ver, dict(fields), pfx, s))
+    from .. import conc
+    conc.flag_variants(ctx, [["C", c[0], c[3]] for c in cases[:: max(1, len(cases) // ctx.n(120, 1200))] if core.sendable(c[3])], "json")
+    conc.pickle_across(ctx, [(c[0], c[3]) for c in cases[:: max(1, len(cases) // 40)]], "json")
     ctx.count(len(cases) * 4)
     ctx.sample({"vector": cases[0][3]})
     for ver in "234":
